@@ -18,12 +18,12 @@ CLAIMED = {
          "*Preformatted setters and header names are out of scope by the property's statement. Values that consist of printable ASCII and contain encoded-word syntax are a recorded known finding (ew-lookalike-verbatim) and are excluded by signature, counted in the evidence.",
          "DESIGN.md section 3, C02"),
  "C03": ("fault_enumeration",
-         "rapid-generated histories: batches of generated messages x injected render faults (producer failing before/inside/after its content, deleted attachment file) x transport faults (drop after k DATA bytes) x reply scripts; oracle: commit log of the reference server vs. the harness' own reference rendering, IsDelivered/HasSendError vs. the 2yz end-of-data replies actually sent",
+         "rapid-generated histories: batches of generated messages x injected render faults (producer failing before/inside/after its content, deleted attachment file) x an unsignable S/MIME key (render fails before the first byte) x transport faults (drop after k DATA bytes) x reply scripts; oracle: commit log of the reference server vs. the harness' own reference rendering, IsDelivered/HasSendError vs. the 2yz end-of-data replies actually sent",
          "TestC03Enum enumerates, for batches of 1, 2 and 3 messages: every step id x {4yz, 5yz, drop}, every producer x {before, mid, after}, their product for the 3-batch, and a drop at every 40th content byte; everything else is sampled by rapid.",
          "The reference rendering is taken with Msg.WriteTo before the send (C11 checks that renders are repeatable); 8bit parts carry CRLF line breaks only; in-memory transport; watchdog time-outs are inconclusive.",
          "DESIGN.md section 3, C03"),
  "C04": ("fault_enumeration",
-         "reply-script fault injection against a strict reference SMTP server (own RFC 5321 parser + transaction automaton): exhaustive <= 1-fault (thorough: also 2-fault) scripts at every step id of the fault-free session per capability subset, plus rapid-generated multi-fault scripts/configurations; oracle: automaton accepts the session, parameter forms, reply-tag attribution",
+         "reply-script fault injection against a strict reference SMTP server (own RFC 5321 parser + transaction automaton): exhaustive <= 1-fault (thorough: also 2-fault) scripts at every step id of the fault-free session per capability subset, every rejected MAIL/RCPT/DATA combined with a refused abandoning RSET, plus rapid-generated multi-fault scripts/configurations; oracle: automaton accepts the session, parameter forms, reply-tag attribution",
          "Every step id of the recorded fault-free dialogue is replaced by each of {4yz, 5yz, drop} for every capability subset (64 in thorough, 8 per seed in quick) x 2 client configurations: complete for <= 1 fault on those configurations; multi-fault scripts and other configurations are sampled by rapid.",
          "The reference server's strictness (Postfix-like) is the oracle; in-memory transport; pipelining is detected only when two commands arrive in one read. The SASL cancel line after a final AUTH reply is a recorded known finding.",
          "DESIGN.md section 3, C04"),
@@ -38,12 +38,12 @@ CLAIMED = {
          "For *IgnoreInvalid the model only demands a subsequence of the valid inputs that contains every valid ASCII-named input (what happens to valid non-ASCII names is not fixed by the property) and follows the getter there.",
          "DESIGN.md section 3, C06"),
  "C07": ("fault_enumeration",
-         "exhaustive product of TLS policy x 13 auth types x host kind x server behaviour (STARTTLS advertised/refused/garbled, certificate valid/wrong-name/untrusted, garbage handshake, AUTH lists) over real TCP with the default dialers and the client's default tls.Config; oracle: byte-exact cleartext tap scanned for non-permitted commands and for every encoding of the per-case random credentials; plus 18 host names around the localhost rule over in-memory connections",
+         "exhaustive product of TLS policy x 13 auth types x host kind x server behaviour (STARTTLS advertised/refused/garbled, certificate valid/wrong-name/untrusted, garbage handshake, AUTH lists) over real TCP with the default dialers and the client's default tls.Config; oracle: byte-exact cleartext tap scanned for non-permitted commands and for every encoding of the per-case random credentials; plus 18 host names around the localhost rule over in-memory connections, plus implicit TLS with a fallback port (plain-text server on port 25)",
          "The configuration product is enumerated completely in both tiers (quick: 2 advertised AUTH lists, thorough: 7); credentials are fresh random tokens per case.",
          "Real TCP on 127.0.0.1/127.0.0.2; the harness CA is installed as the only system root through SSL_CERT_FILE so that the client's default verification is what is tested; server behaviours are the enumerated ones, not arbitrary byte streams.",
          "DESIGN.md section 3, C07"),
  "C08": ("exploration",
-         "rapid-generated message programs x key types x chain shapes x signing APIs, each rendered twice; oracle: own MIME reader + own CMS SignedData verifier (encoding/asn1 + crypto/*): structure, SHA-256 of the first part exactly as emitted == message-digest attribute, DER SET order, signature under the carried signer certificate, intermediate carried iff given, leaves of the signed entity == model, identical signed entity across renders",
+         "rapid-generated message programs x key types x issuer hashes (SHA-256/384/512 on the signer certificate) x chain shapes x signing APIs, each rendered twice (optionally after a failed render, optionally with an alternative added in between); oracle: own MIME reader + own CMS SignedData verifier (encoding/asn1 + crypto/*): structure, SHA-256 of the first part exactly as emitted == message-digest attribute, DER SET order, signature under the carried signer certificate, intermediate carried iff given, leaves of the signed entity == model, identical signed entity across renders",
          "Generated-input search with an independent verifier as oracle; sampled.",
          "The CMS verifier is the harness' own (validated by the cases that verify); certificate path validation to a trust anchor is not part of the property; contents are in canonical CRLF form.",
          "DESIGN.md section 3, C08"),
@@ -63,37 +63,37 @@ CLAIMED = {
          "Send is compared modulo what DATA does to any content (exact model of textproto's dot-writer); for S/MIME-signed histories the per-render outer boundary is masked and the signature part ignored; a transmitted copy is never the reference.",
          "DESIGN.md section 3, C11"),
  "C12": ("fault_enumeration",
-         "rapid-generated message programs x exhaustive sink-offset fault injection (every byte offset, two sink modes, first/second render) + producer fault injection; oracle: no panic, err != nil, returned count == bytes accepted by the sink",
+         "rapid-generated message programs x exhaustive sink-offset fault injection (every byte offset, two sink modes, first/second render, also S/MIME-signed) + producer fault injection (custom writers failing at an offset, on-disk attachment files deleted); oracle: no panic, err != nil, returned count == bytes accepted by the sink",
          "For every generated message program the check enumerates EVERY byte offset at which the destination can start failing (complete for that program) and injects producer failures; the programs themselves are sampled by rapid, so the guarantee is exhaustive per shape and statistical across shapes.",
          "Sinks obey the io.Writer contract and keep failing once they failed; shapes limited to 0..3 parts, 0..2 embeds, 0..2 attachments with contents <= 90 bytes.",
          "DESIGN.md section 3, C12"),
  "C13": ("exploration",
-         "randomised concurrent stress under the Go race detector: rapid draws goroutine counts, call mixes (Send on the shared connection, batched Send, DialAndSend on the same Client), server latency jitter plans and GOMAXPROCS; oracle: per-connection transaction automaton of the reference server, token pairing of envelope and content, exactly-once commit, and absence of race reports",
+         "randomised concurrent stress under the Go race detector: rapid draws goroutine counts, call mixes (Send on the shared connection, batched Send, DialAndSend on the same Client), optional SMTP AUTH against verifying servers, optional refused messages and a disconnect on the abandoning RSET, server latency jitter plans and GOMAXPROCS; oracle: per-connection transaction automaton of the reference server, token pairing of envelope and content, exactly-once commit (or clean failure where the scenario injects faults), no call hanging, and absence of race reports",
          "Exploration only: the harness does not control the Go scheduler; schedules are varied indirectly and the race detector sees only the executions that happen. Removing the lock that serialises Send is caught reliably; a window of a few instructions may be missed.",
          "-race build; in-memory transport; every race report counts as a violation (the detector has no false positives).",
          "DESIGN.md sections 3 (C13) and 6"),
  "C14": ("exploration",
-         "differential testing of the client's SASL exchanges against independent reference verifiers written from the RFCs (PLAIN, LOGIN, CRAM-MD5, XOAUTH2, SCRAM-SHA-1/-256(-PLUS) with own PBKDF2 and the server's own channel-binding data), over rapid-generated credentials, wrong-credential twins, salts, iteration counts, nonce suffixes, TLS 1.2/1.3 and retries",
+         "differential testing of the client's SASL exchanges against independent reference verifiers written from the RFCs (PLAIN, LOGIN, CRAM-MD5, XOAUTH2, SCRAM-SHA-1/-256(-PLUS) with own PBKDF2 and the server's own channel-binding data), over rapid-generated credentials, wrong-credential twins, hand-verified normalisation pairs, salts, iteration counts, nonce suffixes, TLS 1.2/1.3, retries of one Auth value for every mechanism (SCRAM also against another salt) and a preparatory exchange with a since-rotated password",
          "Generated-input search with reference implementations as oracle (validated on the RFC 5802, 7677 and 6070 test vectors); sampled.",
          "Unicode credentials are restricted to fixed points of SASLprep and PRECIS (no independent normaliser offline); NUL (and ^A for XOAUTH2) are not generated; SCRAM's local refusal of PRECIS-forbidden strings is a permitted outcome.",
          "DESIGN.md section 3, C14"),
  "C15": ("fault_enumeration",
-         "bounded-exhaustive enumeration of adversarial server message sequences (alphabet of 12 valid/forged/replayed/malformed SCRAM messages and final replies; also with an Auth object that completed an exchange on an earlier connection) driven through smtp.Client.Auth, judged by a reference tracker of the exchange (own RFC 5802 implementation)",
+         "bounded-exhaustive enumeration of adversarial server message sequences (alphabet of 13 valid/forged/replayed/empty/malformed SCRAM messages and final replies; also with an Auth object that completed an exchange on an earlier connection) driven through smtp.Client.Auth, judged by a reference tracker of the exchange (own RFC 5802 implementation)",
          "Exhaustive for all sequences up to length 5 (PLUS: 4) in quick and 7 (PLUS: 6) in thorough over the stated alphabet, with pruning only after the client aborted or the exchange ended; for SCRAM-SHA-1/-256 and both PLUS variants over a real TLS 1.2 handshake.",
          "Fixed credentials and PBKDF2 iteration count 4; the alphabet is finite and chosen by the harness; the bare-235 acceptance is a recorded known finding (scram-bare-235), excluded by signature and counted.",
          "DESIGN.md section 3, C15"),
  "C16": ("exploration",
-         "rapid-generated mechanisms x random secrets x server scripts (success, 535 / malformed challenge / disconnect at each exchange step, extra challenge) x logger kinds, through mail.Client and through the exported smtp.Client API (Auth with or without a prior Hello); oracle: search of every captured log record for the secret in raw/hex/base64(3 alignments) form and for the secret-carrying SASL response lines the reference server recorded, plus presence of the post-auth MAIL line (window closed)",
+         "rapid-generated mechanisms x random secrets x server scripts (success, 535 / malformed challenge / disconnect at each exchange step, extra challenge) x logger kinds, through mail.Client and through the exported smtp.Client API (Auth with or without a prior Hello, optionally with Close() or SetDebugLog(true) happening between two steps), incl. scripts in which the write of the secret-bearing line fails; oracle: search of every captured log record for the secret in raw/hex/base64(3 alignments) form and for the secret-carrying SASL response lines the reference server recorded, plus presence of the post-auth MAIL line (window closed)",
          "Generated-input search with a leak-detection oracle driven by what the reference server actually received; sampled.",
          "Secrets are alphanumeric (so JSON escaping cannot hide them) and >= 12 characters (so needles cannot match by chance); user names and mechanism names are not treated as secrets.",
          "DESIGN.md section 3, C16"),
  "C17": ("fault_enumeration",
-         "stall-point fault injection: the reference server goes silent at every enumerated step of the dial and send dialogues (incl. TLS handshake, AUTH challenges, inside DATA content with a bounded buffer) x TLS policy x auth class x call {DialWithContext, DialAndSend, Send, Reset} x timeout, also on a connection obtained through the fallback port; oracle: the call returns a non-nil error within max(20 x timeout, 15 s), misses must repeat twice",
+         "stall-point fault injection: the reference server goes silent at every enumerated step of the dial and send dialogues (incl. TLS handshake, AUTH challenges, inside DATA content with a bounded buffer) x TLS policy x auth class x call {DialWithContext, DialAndSend, Send, Reset} x timeout, also on a connection obtained through the fallback port, with WithoutNoop, and with a caller context whose own deadline is far away; oracle: the call returns a non-nil error within max(20 x timeout, 15 s), misses must repeat twice",
          "Complete for the enumerated stall points (one per command position per TLS mode and auth mechanism class); boundedness is observed with real clocks, not proved.",
          "Wall-clock oracle with a bound >= 20x the configured timeout and >= 15 s (crypto/tls may spend 5 s on close_notify when the peer stopped reading); in-memory transport with deadline support implemented by the harness.",
          "DESIGN.md section 3, C17"),
  "C18": ("exploration",
-         "rapid-generated long/multi-word header values, address lists, file names, bodies around the 57/76 wrapping points and adversarial producer chunkings; oracle: raw-line lint (CRLF, no bare CR/LF, <= 76 encoded body lines, <= 78 header lines unless unfoldable), unfold/decode == value set, metamorphic equality across chunkings",
+         "rapid-generated long/multi-word header values (occasionally with CR/LF/NUL), address lists, file names, bodies around the 57/76 wrapping points and adversarial producer chunkings, optionally after a failed render of another message in the same process; oracle: raw-line lint (CRLF, no bare CR/LF, <= 76 encoded body lines, <= 78 header lines unless unfoldable), unfold/decode == value set, metamorphic equality across chunkings",
          "Generated-input search with a line-discipline lint, a round trip on folded values and a metamorphic relation over producer chunkings; all sampled.",
          "Header lines > 78 with a folding opportunity inside MIME *part* headers (written through multipart.CreatePart) are a recorded known finding (part-header-unfolded), excluded by signature and counted; the 78 rule is enforced without exception on top-level header sections, all other rules on all sections and bodies.",
          "DESIGN.md section 3, C18"),
